@@ -67,8 +67,10 @@ Section Cache.
   Proof. unfold flip_diagonal. repeat first [apply cc_mark | cc_step]. Qed.
   Lemma cc_hemisphere s p i : PCC (process_hemisphere (K:=K) s p i).
   Proof. unfold process_hemisphere. repeat first [apply cc_mark | cc_step]. Qed.
+  Lemma cc_precheck s p i : PCC (split_precheck (K:=K) s p i).
+  Proof. unfold split_precheck. repeat cc_step. Qed.
   Lemma cc_split_edge i e p : PCC (split_edge (K:=K) i e p).
-  Proof. unfold split_edge. repeat first [apply cc_mark | apply cc_hemisphere | cc_step]. Qed.
+  Proof. unfold split_edge. repeat first [apply cc_mark | apply cc_hemisphere | apply cc_precheck | cc_step]. Qed.
   Lemma cc_split_triangle i p : PCC (split_triangle (K:=K) i p).
   Proof. unfold split_triangle. repeat first [apply cc_mark | cc_step]. Qed.
   Lemma cc_rd_pass (m : K) : forall cnt i l any, PCC (rd_pass m cnt i l any).
